@@ -191,7 +191,16 @@ inline void install_crash_handlers() {
   std::signal(SIGFPE, crash_handler);
   std::signal(SIGBUS, crash_handler);
   std::signal(SIGILL, crash_handler);
+  std::signal(SIGALRM, crash_handler);   // watchdog (step_watchdog): an operation that does not terminate is a crash record
 }
+// Progress watchdog: armed before every replayed behaviour / step; a library call that loops (a reduction that never
+// terminates) ends the configuration with a crash record of signal 14 instead of hanging the check.
+inline void step_watchdog() {
+  static int secs = [] { const char* e = std::getenv("VF_STEP_TIMEOUT"); return e ? std::atoi(e) : 60; }();
+  alarm(static_cast<unsigned>(secs));
+}
+// for forked probe children: die silently when the probed operation does not terminate
+inline void child_watchdog(unsigned secs = 20) { std::signal(SIGALRM, SIG_DFL); alarm(secs); }
 
 // ---------------------------------------------------------------------------------------------
 // Replay of TLC behaviours.
@@ -334,6 +343,7 @@ void replay_config_inproc(ReplayCtx& ctx) {
       for (auto& sv : path) {
         const bj::object& s = sv.as_object();
         crash_ctx().where = st.cfg + " g=" + std::to_string(gi) + " path u=" + std::to_string(u) + " step=" + std::to_string(step);
+        step_watchdog();
         set_final(m, edges.empty() && step + 1 == static_cast<int>(path.size()));
         bj::object got;
         try { got = m.apply(s.at("act").as_object()); } catch (const std::exception& e) { got["exception"] = e.what(); }
@@ -363,6 +373,8 @@ void replay_config_inproc(ReplayCtx& ctx) {
       const bj::object& e = ev.as_object();
       const bj::object& act = e.at("act").as_object();
       std::int64_t k = e.at("k").as_int64();
+      step_watchdog();
+      crash_ctx().where = st.cfg + " g=" + std::to_string(gi) + " edge u=" + std::to_string(u) + " k=" + std::to_string(e.at("k").as_int64());
       Model m;
       if (!m.applicable(act) || !m.state_ok(ctx.states[e.at("to").as_int64()].as_object())) { st.skipped++; continue; }
       st.hist.clear();
@@ -381,6 +393,7 @@ void replay_config_inproc(ReplayCtx& ctx) {
       check_step(m, act, got, ctx.states[e.at("to").as_int64()], ctx, st, u, k, static_cast<int>(path.size()), "edge");
     }
   }
+  alarm(0);
   bj::object o{{"kind", "summary"}, {"cfg", st.cfg}, {"behaviours", st.behaviours}, {"steps", st.steps},
                {"skipped", st.skipped}, {"deviations", st.deviations}};
   std::fprintf(ctx.out, "%s\n", bj::serialize(o).c_str());
